@@ -11,3 +11,53 @@ pub fn sanity_verify_context(global: Vec<SideMetadataSpec>, local: Vec<SideMetad
     let mut sanity = SideMetadataSanity::new();
     sanity.verify_metadata_context("verif", &ctx);
 }
+
+/// Every space of the current plan with the side metadata specs (global, local) it uses.
+pub fn plan_side_metadata_specs<VM: crate::vm::VMBinding>(
+    mmtk: &crate::MMTK<VM>,
+) -> Vec<(&'static str, Vec<SideMetadataSpec>, Vec<SideMetadataSpec>)> {
+    let mut out = vec![];
+    mmtk.get_plan().for_each_space(&mut |space| {
+        let (g, l) = space.verif_side_metadata_specs();
+        out.push((space.get_name(), g, l));
+    });
+    out
+}
+
+/// `(reserved side-metadata bytes, GLOBAL_SIDE_METADATA_VM_BASE_OFFSET,
+/// LOCAL_SIDE_METADATA_VM_BASE_OFFSET, mmapper granularity)`.
+pub fn side_metadata_layout_consts() -> (usize, usize, usize, usize) {
+    use crate::util::metadata::side_metadata::*;
+    (
+        crate::util::metadata::side_metadata::verif_hooks::reserved_bytes(),
+        GLOBAL_SIDE_METADATA_VM_BASE_OFFSET,
+        LOCAL_SIDE_METADATA_VM_BASE_OFFSET,
+        crate::MMAPPER.granularity(),
+    )
+}
+
+/// All side metadata specs mmtk-core itself defines (`spec_defs.rs`), in declaration order.
+pub fn core_side_metadata_specs() -> Vec<SideMetadataSpec> {
+    use crate::util::metadata::side_metadata::spec_defs::*;
+    vec![
+        VO_BIT,
+        SFT_DENSE_CHUNK_MAP_INDEX,
+        CHUNK_MARK,
+        MALLOC_MS_ACTIVE_PAGE,
+        MS_OFFSET_MALLOC,
+        IX_LINE_MARK,
+        IX_BLOCK_DEFRAG,
+        IX_BLOCK_MARK,
+        MS_BLOCK_MARK,
+        MS_BLOCK_NEXT,
+        MS_BLOCK_PREV,
+        MS_BLOCK_LIST,
+        MS_BLOCK_SIZE,
+        MS_BLOCK_TLS,
+        MS_FREE,
+        MS_LOCAL_FREE,
+        MS_THREAD_FREE,
+        COMPRESSOR_MARK,
+        COMPRESSOR_OFFSET_VECTOR,
+    ]
+}
